@@ -197,12 +197,21 @@ func (p *Prog) dischargeBounds(fn *ssa.Function, in ssa.Instruction) (bool, stri
 	if ok, why := p.outdentInvariant(fn, in); ok {
 		return true, why
 	}
+	if ok, why := p.tableConstIndex(fn, in); ok {
+		return true, why
+	}
 	var assume []zdefSpec
 	pre := p.paramLenPre(fn)
 	for prm, min := range pre {
 		assume = append(assume, zdefSpec{prm, min})
 	}
 	sort.Slice(assume, func(i, j int) bool { return assume[i].param.Name() < assume[j].param.Name() })
+	// B11 for strings: a string parameter that every caller has tested to contain the separator it is split at
+	nPre := len(assume)
+	for _, sc := range p.paramContainsPre(fn) {
+		assume = append(assume, zdefSpec{sc, 2})
+	}
+	_ = nPre
 	z := p.zoneFlowOf(fn, assume)
 	ok, why := z.checkOp(in)
 	if ok && len(assume) > 0 {
@@ -1233,5 +1242,162 @@ func (p *Prog) paramLenPre(fn *ssa.Function) map[*ssa.Parameter]int64 {
 			out[prm] = 1
 		}
 	}
+	return out
+}
+
+// tableConstIndex (B12): x[k] with constant k where x is component c of an element of the escape table — a package variable that
+// is a literal of constant (pattern, replacement) pairs and is written nowhere but in its initialiser — and every entry's
+// component c is at least k+1 bytes long.
+func (p *Prog) tableConstIndex(fn *ssa.Function, in ssa.Instruction) (bool, string) {
+	ia, ok := in.(*ssa.IndexAddr)
+	if !ok {
+		return false, ""
+	}
+	k, isK := constInt(ia.Index)
+	if !isK || k < 0 {
+		return false, ""
+	}
+	g := p.Globals["mxj.escapechars"]
+	if g == nil || !p.stableGlobal(g) {
+		return false, ""
+	}
+	tab, _, kind := p.escapeTable()
+	if kind != "pairs" || len(tab) == 0 {
+		return false, ""
+	}
+	// ia.X = load(&E[c]) with E the element (or a local copy of it) of the table
+	ld, ok := ia.X.(*ssa.UnOp)
+	if !ok {
+		return false, ""
+	}
+	ca, ok := ld.X.(*ssa.IndexAddr)
+	if !ok {
+		return false, ""
+	}
+	c, isC := constInt(ca.Index)
+	if !isC || c < 0 || c > 1 {
+		return false, ""
+	}
+	fromTable := func(base ssa.Value) bool {
+		if al, isA := base.(*ssa.Alloc); isA {
+			all, n := true, 0
+			for _, ref := range *al.Referrers() {
+				if st, isSt := ref.(*ssa.Store); isSt && st.Addr == ssa.Value(al) {
+					n++
+					l2, isLd := st.Val.(*ssa.UnOp)
+					if !isLd {
+						all = false
+						continue
+					}
+					e, isE := l2.X.(*ssa.IndexAddr)
+					if !isE || globalOf(e.X) != g {
+						all = false
+					}
+				}
+			}
+			return all && n > 0
+		}
+		if e, isE := base.(*ssa.IndexAddr); isE {
+			return globalOf(e.X) == g
+		}
+		return false
+	}
+	if !fromTable(ca.X) {
+		return false, ""
+	}
+	for _, pr := range tab {
+		if int64(len(pr[c])) <= k {
+			return false, ""
+		}
+	}
+	return true, fmt.Sprintf("table constant (B12): component %d of every entry of the escape table literal is longer than %d bytes, and the table is written only by its initialiser", c, k)
+}
+
+// paramContainsPre: the strings.Split(prm, sep) calls of an unexported function (constant sep, prm a string parameter) for which
+// every call site of the function is dominated by a successful test that the argument contains sep: the split has at least two parts.
+func (p *Prog) paramContainsPre(fn *ssa.Function) []ssa.Value {
+	key := fmt.Sprintf("pcp:%p", fn)
+	if v, ok := p.facts[key]; ok {
+		return v.([]ssa.Value)
+	}
+	var out []ssa.Value
+	p.facts[key] = out
+	if p.Exported(fn) || fn.Parent() != nil || len(fn.Blocks) == 0 {
+		return out
+	}
+	sites := p.CG().sites[fn]
+	if len(sites) == 0 {
+		return out
+	}
+	eachInstr(fn, func(b *ssa.BasicBlock, in ssa.Instruction) {
+		c, ok := in.(*ssa.Call)
+		if !ok || !isCallTo(&c.Call, "strings.Split") {
+			return
+		}
+		sep, isS := constString(c.Call.Args[1])
+		if !isS || sep == "" {
+			return
+		}
+		pi := -1
+		for i, prm := range fn.Params {
+			if c.Call.Args[0] == ssa.Value(prm) {
+				pi = i
+			}
+		}
+		if pi < 0 {
+			return
+		}
+		all := true
+		for _, site := range sites {
+			args := site.Common().Args
+			caller := site.Parent()
+			if site.Common().IsInvoke() || pi >= len(args) || caller == fn {
+				all = false
+				break
+			}
+			cz := p.canonFor(caller)
+			want := cz.of(args[pi])
+			okSite := false
+			for _, g := range expandAndGuards(dominatingGuards(site.Block())) {
+				ng := normGuard(g)
+				switch x := ng.Cond.(type) {
+				case *ssa.Call:
+					if ng.Pol && isCallTo(&x.Call, "strings.Contains") && cz.of(x.Call.Args[0]) == want {
+						if s2, ok2 := constString(x.Call.Args[1]); ok2 && s2 == sep {
+							okSite = true
+						}
+					}
+				case *ssa.BinOp:
+					ic, isC := x.X.(*ssa.Call)
+					if !isC || !isCallTo(&ic.Call, "strings.Index", "strings.LastIndex", "strings.IndexByte", "strings.LastIndexByte") || cz.of(ic.Call.Args[0]) != want {
+						continue
+					}
+					if s2, ok2 := constString(ic.Call.Args[1]); !ok2 || s2 != sep {
+						if bv, isB := constInt(ic.Call.Args[1]); !isB || len(sep) != 1 || int64(sep[0]) != bv {
+							continue
+						}
+					}
+					k, isK := constInt(x.Y)
+					if !isK {
+						continue
+					}
+					switch {
+					case x.Op == token.GEQ && k == 0 && ng.Pol, x.Op == token.LSS && k == 0 && !ng.Pol,
+						x.Op == token.NEQ && k == -1 && ng.Pol, x.Op == token.EQL && k == -1 && !ng.Pol,
+						x.Op == token.GTR && k == -1 && ng.Pol, x.Op == token.LEQ && k == -1 && !ng.Pol:
+						okSite = true
+					}
+				}
+			}
+			if !okSite {
+				all = false
+				break
+			}
+		}
+		if all {
+			out = append(out, c)
+		}
+	})
+	p.facts[key] = out
 	return out
 }
